@@ -65,6 +65,12 @@ TEMPLATES = [
     # a nullable alternative (it can fail without consuming: it starts with a lookahead group) BEFORE the recursive alternative
     ("nullable-alt-before", lambda R: alt(seq(look(True, B), grp("opt", A)), seq(R, B))),
     ("nullable-alt-before-2", lambda R: alt(grp("star", A), seq(R, B))),
+    # "!" needs a VALUE, not a token: a capture around an expression that matched nothing yields one ( (@["a"])! ), an optional
+    # capture that did not match yields none ( (@"a"?)!  (@"a"? @"b"?)! )
+    ("after-nonempty-captured-opt", lambda R: seq(grp("nonempty", grp("once", cap("C", "string", grp("opt", A)))), R)),
+    ("after-nonempty-opt-captures", lambda R: seq(grp("nonempty", grp("once", seq(grp("opt", cap("C", "string", A)), grp("opt", cap("D", "string", B))))), R)),
+    ("after-nonempty-captured-star", lambda R: seq(grp("nonempty", grp("once", cap("C", "strings", grp("once", grp("star", A))))), R, B)),
+    ("after-nonempty-alt-capture", lambda R: seq(grp("nonempty", grp("once", alt(A, cap("C", "string", grp("opt", B))))), R)),
     ("terminal", None),
 ]
 
